@@ -27,6 +27,7 @@ inductive Pos where
   | lad (w : Which) (lvs : List Level)                 -- inside ladder `w`, levels `lvs` still to go (loosest first)
   | spine (w : Which) (lv : Level) (post : List Level) -- the left spine of the loop of level `lv`
   | range                                              -- `_parse_range`
+  | rspine                                             -- the operand / predicate chain inside `_parse_range`'s loop
   | unary                                              -- `_parse_unary`
 deriving Repr
 
@@ -50,6 +51,12 @@ instance (B : List String) (ts : Toks) : Decidable (headOk B ts) := by
 
 def identTok (p : String × Bool) : Tok := ⟨if p.2 then "IDENTIFIER" else "VAR", p.1⟩
 
+/-- tokens of an expression printed under an inherited spine operator -/
+def gI (tbl : Tables) (inh : Inh) (e : Expr) : Toks := toks (genI tbl inh e)
+
+/-- tokens of a comma-separated list -/
+def gList (tbl : Tables) (es : List Expr) : Toks := toks (genList tbl es)
+
 inductive Fits (tbl : Tables) : Pos → List String → Expr → Prop where
   | num (s : String) : Fits tbl .unary unaryBlocked (.num s)
   | str (s : String) : Fits tbl .unary unaryBlocked (.str s)
@@ -63,21 +70,53 @@ inductive Fits (tbl : Tables) : Pos → List String → Expr → Prop where
   | baseLower {B e} : Fits tbl .unary B e → Fits tbl (.lad .lower []) B e
   | baseMid {B e} : Fits tbl .range B e → Fits tbl (.lad .mid []) B e
   | baseOuter {B e} : Fits tbl (.lad .mid tbl.mid) B e → Fits tbl (.lad .outer []) B e
-  | rangeLift {B e} : Fits tbl (.lad .lower tbl.lower) B e → Fits tbl .range (rangeBlocked tbl ++ B) e
+  | func0 (name : String) : Fits tbl .unary unaryBlocked (.func name [])
+  | func (name : String) (args : List Expr) (Bof : Expr → List String) : args ≠ [] →
+      (∀ x ∈ args, Fits tbl (.lad .outer tbl.outer) (Bof x) x) →
+      (∀ x ∈ args, "COMMA" ∉ Bof x ∧ "R_PAREN" ∉ Bof x) → Fits tbl .unary unaryBlocked (.func name args)
+  | rOperand {B e} : Fits tbl (.lad .lower tbl.lower) B e → Fits tbl .rspine B e
+  | rIsNull {Bl l} (n : Bool) : Fits tbl .rspine Bl l → "IS" ∉ Bl → (n = true → tbl.normalizeNotNull = false) →
+      gI tbl (some (false, isOp n)) l = g tbl l → Fits tbl .rspine [] (.isNull n l)
+  | rIn {Bl l} (items : List Expr) (Bof : Expr → List String) : Fits tbl .rspine Bl l → "IN" ∉ Bl → items ≠ [] →
+      (∀ x ∈ items, Fits tbl (.lad .outer tbl.outer) (Bof x) x) →
+      (∀ x ∈ items, "COMMA" ∉ Bof x ∧ "R_PAREN" ∉ Bof x) → Fits tbl .rspine [] (.inList l items)
+  | rBetween {Bl Blo Bhi l lo hi} : Fits tbl .rspine Bl l → "BETWEEN" ∉ Bl →
+      Fits tbl (.lad .lower tbl.lower) Blo lo → "AND" ∉ Blo →
+      textUpperIs (g tbl lo) ["SYMMETRIC", "ASYMMETRIC"] = false →
+      Fits tbl (.lad .lower tbl.lower) Bhi hi → Fits tbl .rspine Bhi (.between l lo hi)
+  | rLike {Bl Bp l p} (n : Bool) : Fits tbl .rspine Bl l → "LIKE" ∉ Bl → "NOT" ∉ Bl →
+      Fits tbl (.lad .lower tbl.lower) Bp p →
+      gI tbl (some (true, likeOp n)) l = g tbl l → gI tbl (some (true, likeOp n)) p = g tbl p →
+      Fits tbl .rspine ((if n then "NOT" :: tbl.rangeToks else []) ++ "ESCAPE" :: Bp) (.like n l p)
+  | rangeLift {B e} : Fits tbl .rspine B e → Fits tbl .range (rangeBlocked tbl ++ B) e
   | ladLift {w lv post B e} : Fits tbl (.spine w lv post) B e → Fits tbl (.lad w (lv :: post)) (levelToks lv ++ B) e
   | spineOperand {w lv post B e} : Fits tbl (.lad w post) B e → Fits tbl (.spine w lv post) B e
   | spineBin {w lv post Bl Br l r} (cls tok txt : String) :
       Fits tbl (.spine w lv post) Bl l → lookup lv tok = some cls → opTok tbl cls = ⟨tok, txt⟩ → tok ∉ Bl →
       Fits tbl (.lad w post) Br r → Fits tbl (.spine w lv post) Br (.bin cls l r)
 
-/-- nesting depth of re-entries (parentheses, NOT operands) -/
+-- nesting depth of re-entries (parentheses, NOT operands, list items)
+mutual
 def depth : Expr → Nat
   | .paren e => depth e + 1
   | .not e => depth e + 1
   | .neg e => depth e
   | .bnot e => depth e
   | .bin _ l r => max (depth l) (depth r)
-  | _ => 0
+  | .isNull _ e => depth e
+  | .inList e items => max (depth e) (depthL items + 1)
+  | .between e lo hi => max (depth e) (max (depth lo) (depth hi))
+  | .like _ e p => max (depth e) (depth p)
+  | .func _ args => depthL args + 1
+  | .num _ => 0
+  | .str _ => 0
+  | .null => 0
+  | .bool _ => 0
+  | .col _ => 0
+def depthL : List Expr → Nat
+  | [] => 0
+  | e :: es => max (depth e) (depthL es)
+end
 
 /-- what the parser entered at `pos` (with `n` re-entries available) does on the printed form of `e` -/
 def Concl (tbl : Tables) (n : Nat) : Pos → Expr → Toks → Prop
@@ -89,6 +128,10 @@ def Concl (tbl : Tables) (n : Nat) : Pos → Expr → Toks → Prop
           = loopLv (parseLv (subOf tbl (parseF tbl n).1 (parseF tbl n).2 w) post) lv k e rest
   | .range, e, rest =>
       rangeP tbl (parseF tbl n).1 (bitP tbl (parseF tbl n).1 (parseF tbl n).2) (g tbl e ++ rest) = .ok (e, rest)
+  | .rspine, e, rest =>
+      ∃ k, rest.length + 1 ≤ k ∧
+        rangeP tbl (parseF tbl n).1 (bitP tbl (parseF tbl n).1 (parseF tbl n).2) (g tbl e ++ rest)
+          = rangeLoop tbl (parseF tbl n).1 (bitP tbl (parseF tbl n).1 (parseF tbl n).2) k e rest
   | .unary, e, rest =>
       unaryP (atomP (parseF tbl n).1) (parseF tbl n).2 (g tbl e ++ rest) = .ok (e, rest)
 
@@ -117,6 +160,39 @@ theorem g_not (tbl : Tables) (e : Expr) : g tbl (.not e) = ⟨"NOT", "NOT"⟩ ::
 theorem g_bin (tbl : Tables) (cls : String) (l r : Expr) :
     g tbl (.bin cls l r) = g tbl l ++ opTok tbl cls :: g tbl r := by
   simp [g, gen, genI, toks, toks_append]
+
+theorem toks_isOp (n : Bool) : toks (isOp n) = if n then [⟨"IS", "IS"⟩, ⟨"NOT", "NOT"⟩] else [⟨"IS", "IS"⟩] := by
+  cases n <;> simp [isOp, toks, kw]
+
+theorem toks_likeOp (n : Bool) : toks (likeOp n) = if n then [⟨"NOT", "NOT"⟩, ⟨"LIKE", "LIKE"⟩] else [⟨"LIKE", "LIKE"⟩] := by
+  cases n <;> simp [likeOp, toks, kw]
+
+theorem g_isNull (tbl : Tables) (n : Bool) (l : Expr) :
+    g tbl (.isNull n l) = gI tbl (some (false, isOp n)) l ++ (toks (isOp n) ++ [⟨"NULL", "NULL"⟩]) := by
+  simp [g, gI, gen, genI, inhOp, toks, toks_append, kw]
+
+theorem g_inList (tbl : Tables) (l : Expr) (items : List Expr) :
+    g tbl (.inList l items) = g tbl l ++ ⟨"IN", "IN"⟩ :: ⟨"L_PAREN", "("⟩ :: (gList tbl items ++ [⟨"R_PAREN", ")"⟩]) := by
+  simp [g, gList, gen, genI, toks, toks_append, kw]
+
+theorem g_between (tbl : Tables) (l lo hi : Expr) :
+    g tbl (.between l lo hi) = g tbl l ++ ⟨"BETWEEN", "BETWEEN"⟩ :: (g tbl lo ++ ⟨"AND", "AND"⟩ :: g tbl hi) := by
+  simp [g, gen, genI, toks, toks_append, kw]
+
+theorem g_like (tbl : Tables) (n : Bool) (l p : Expr) :
+    g tbl (.like n l p) = gI tbl (some (true, likeOp n)) l ++ (toks (likeOp n) ++ gI tbl (some (true, likeOp n)) p) := by
+  simp [g, gI, gen, genI, inhOp, toks_append]
+
+theorem g_func (tbl : Tables) (name : String) (args : List Expr) :
+    g tbl (.func name args) = ⟨"VAR", name⟩ :: ⟨"L_PAREN", "("⟩ :: (gList tbl args ++ [⟨"R_PAREN", ")"⟩]) := by
+  simp [g, gList, gen, genI, toks, toks_append, kw]
+
+theorem gList_one (tbl : Tables) (e : Expr) : gList tbl [e] = g tbl e := by
+  simp [gList, genList, g, gen]
+
+theorem gList_cons2 (tbl : Tables) (e f : Expr) (rest : List Expr) :
+    gList tbl (e :: f :: rest) = g tbl e ++ ⟨"COMMA", ","⟩ :: gList tbl (f :: rest) := by
+  simp [gList, genList, g, gen, toks, toks_append, kw]
 
 def colTail : List (String × Bool) → Toks
   | [] => []
@@ -197,6 +273,172 @@ theorem rangeLoop_stop (tbl : Tables) (top bit : Toks → Res) (k : Nat) (e : Ex
       and_true] at h
     obtain ⟨⟨h1, h2, h3, h4, h5, h6, h7, h8⟩, h9⟩ := h
     simp [rangeLoop, headIs, rangeStep, h1, h2, h3, h4, h5, h6, h7, h8, h9]
+
+/-- the printed form of a fitting tree is non-empty and does not start with `)` -/
+theorem g_head (tbl : Tables) {pos : Pos} {B : List String} {e : Expr} (h : Fits tbl pos B e) :
+    ∃ t r, g tbl e = t :: r ∧ t.ty ≠ "R_PAREN" := by
+  induction h with
+  | num s => exact ⟨_, _, g_num tbl s, by simp⟩
+  | str s => exact ⟨_, _, g_str tbl s, by simp⟩
+  | null => exact ⟨_, _, g_null tbl, by decide⟩
+  | bool b => exact ⟨_, _, g_bool tbl b, by cases b <;> decide⟩
+  | col p ps _ =>
+    refine ⟨_, _, g_col tbl p ps, ?_⟩
+    obtain ⟨a, q⟩ := p
+    cases q <;> simp [identTok]
+  | paren _ _ _ => exact ⟨_, _, g_paren tbl _, by decide⟩
+  | neg _ _ => exact ⟨_, _, g_neg tbl _, by decide⟩
+  | bnot _ _ => exact ⟨_, _, g_bnot tbl _, by decide⟩
+  | not _ _ => exact ⟨_, _, g_not tbl _, by decide⟩
+  | baseLower _ ih => exact ih
+  | baseMid _ ih => exact ih
+  | baseOuter _ ih => exact ih
+  | func0 name => exact ⟨_, _, g_func tbl name [], by simp⟩
+  | func name args Bof _ _ _ _ => exact ⟨_, _, g_func tbl name args, by simp⟩
+  | rOperand _ ih => exact ih
+  | rIsNull n _ _ _ hgi ih =>
+    obtain ⟨t, r, hg, ht⟩ := ih
+    exact ⟨t, r ++ (toks (isOp n) ++ [⟨"NULL", "NULL"⟩]), by rw [g_isNull, hgi, hg]; rfl, ht⟩
+  | rIn items Bof _ _ _ _ _ ih _ =>
+    obtain ⟨t, r, hg, ht⟩ := ih
+    exact ⟨t, _, by rw [g_inList, hg]; rfl, ht⟩
+  | rBetween _ _ _ _ _ _ ih _ _ =>
+    obtain ⟨t, r, hg, ht⟩ := ih
+    exact ⟨t, _, by rw [g_between, hg]; rfl, ht⟩
+  | rLike n _ _ _ _ hgl _ ih _ =>
+    obtain ⟨t, r, hg, ht⟩ := ih
+    exact ⟨t, _, by rw [g_like, hgl, hg]; rfl, ht⟩
+  | rangeLift _ ih => exact ih
+  | ladLift _ ih => exact ih
+  | spineOperand _ ih => exact ih
+  | spineBin cls tok txt _ _ _ _ _ ihl _ =>
+    obtain ⟨t, r, hg, ht⟩ := ihl
+    exact ⟨t, _, by rw [g_bin, hg]; rfl, ht⟩
+
+theorem depth_le_depthL {x : Expr} {items : List Expr} (h : x ∈ items) : depth x ≤ depthL items := by
+  induction items with
+  | nil => cases h
+  | cons a as ih =>
+    simp only [depthL]
+    cases h with
+    | head => omega
+    | tail _ h' => have := ih h'; omega
+
+theorem gList_length (tbl : Tables) (items : List Expr) (h : ∀ x ∈ items, g tbl x ≠ []) :
+    items.length ≤ (gList tbl items).length := by
+  induction items with
+  | nil => simp
+  | cons e rest ih =>
+    cases rest with
+    | nil =>
+      rw [gList_one]
+      have := h e (List.mem_cons_self ..)
+      cases hg : g tbl e with
+      | nil => exact absurd hg this
+      | cons _ _ => simp
+    | cons f rest' =>
+      rw [gList_cons2]
+      have := ih (fun x hx => h x (List.mem_cons_of_mem _ hx))
+      simp only [List.length_cons, List.length_append] at this ⊢
+      omega
+
+/-- `_parse_csv` on a printed non-empty list followed by `)` -/
+theorem itemsP_gList (tbl : Tables) (top : Toks → Res) (items : List Expr) (hne : items ≠ []) (rest : Toks)
+    (h : ∀ x ∈ items, ∀ t r, (t.ty = "COMMA" ∨ t.ty = "R_PAREN") → top (g tbl x ++ t :: r) = .ok (x, t :: r)) :
+    ∀ k, items.length ≤ k → itemsP top k (gList tbl items ++ ⟨"R_PAREN", ")"⟩ :: rest) = .ok (items, rest) := by
+  induction items with
+  | nil => exact absurd rfl hne
+  | cons e es ih =>
+    intro k hk
+    obtain ⟨k', rfl⟩ : ∃ k', k = k' + 1 := ⟨k - 1, by simp at hk; omega⟩
+    cases es with
+    | nil =>
+      rw [gList_one]
+      simp only [itemsP]
+      rw [h e (List.mem_cons_self ..) ⟨"R_PAREN", ")"⟩ rest (Or.inr rfl)]
+      simp
+    | cons f fs =>
+      rw [gList_cons2]
+      simp only [itemsP, List.append_assoc, List.cons_append]
+      rw [h e (List.mem_cons_self ..) ⟨"COMMA", ","⟩ _ (Or.inl rfl)]
+      simp only [if_true]
+      rw [ih (by simp) (fun x hx => h x (List.mem_cons_of_mem _ hx)) k' (by simp at hk ⊢; omega)]
+
+theorem headIs_cons (t : Tok) (r : Toks) (ty : String) : headIs (t :: r) ty = decide (t.ty = ty) := rfl
+
+/-- one turn of the `_parse_range` loop when the next token is not NOT -/
+theorem rangeLoop_plain (tbl : Tables) (top bit : Toks → Res) (k : Nat) (this : Expr) (t : Tok) (r : Toks)
+    (ht : t.ty ≠ "NOT") :
+    rangeLoop tbl top bit (k + 1) this (t :: r) =
+      match rangeStep tbl top bit false this (t :: r) with
+      | .done => .ok (this, t :: r)
+      | .fail e => .error e
+      | .next e rest => rangeLoop tbl top bit k e rest := by
+  simp only [rangeLoop, headIs_cons, ht, decide_false, Bool.false_eq_true, if_false, finishNeg]
+  generalize rangeStep tbl top bit false this (t :: r) = st
+  cases st <;> rfl
+
+/-- one turn of the loop after `NOT` -/
+theorem rangeLoop_not (tbl : Tables) (top bit : Toks → Res) (k : Nat) (this : Expr) (txt : String) (r : Toks) :
+    rangeLoop tbl top bit (k + 1) this (⟨"NOT", txt⟩ :: r) =
+      match rangeStep tbl top bit true this r with
+      | .done => .ok (this, ⟨"NOT", txt⟩ :: r)
+      | .fail e => .error e
+      | .next e rest => rangeLoop tbl top bit k (wrapIfRangeFollows tbl.rangeToks (negateRange e) rest) rest := by
+  simp only [rangeLoop, headIs_cons, decide_true, if_true, finishNeg, List.drop_succ_cons, List.drop_zero]
+  generalize rangeStep tbl top bit true this r = st
+  cases st <;> rfl
+
+theorem textUpperIs_append (a b : Toks) (names : List String) (h : a ≠ []) :
+    textUpperIs (a ++ b) names = textUpperIs a names := by
+  cases a with
+  | nil => exact absurd rfl h
+  | cons t r => rfl
+
+theorem wrapIfRangeFollows_id (rangeToks : List String) (e : Expr) (rest : Toks)
+    (h : headOk ("NOT" :: rangeToks) rest) : wrapIfRangeFollows rangeToks e rest = e := by
+  cases rest with
+  | nil => rfl
+  | cons t r =>
+    simp only [headOk, List.mem_cons, not_or] at h
+    simp [wrapIfRangeFollows, h.1, h.2]
+
+theorem gList_nil (tbl : Tables) : gList tbl [] = [] := rfl
+
+theorem gList_head (tbl : Tables) (items : List Expr) (hne : items ≠ [])
+    (hh : ∀ x ∈ items, ∃ t r, g tbl x = t :: r ∧ t.ty ≠ "R_PAREN") :
+    ∃ t r, gList tbl items = t :: r ∧ t.ty ≠ "R_PAREN" := by
+  cases items with
+  | nil => exact absurd rfl hne
+  | cons e es =>
+    obtain ⟨t, r, hg, ht⟩ := hh e (List.mem_cons_self ..)
+    cases es with
+    | nil => exact ⟨t, r, by rw [gList_one, hg], ht⟩
+    | cons f fs => exact ⟨t, _, by rw [gList_cons2, hg]; rfl, ht⟩
+
+/-- the list parser on a printed list, with the fuel the callers use, given the round trip of every item -/
+theorem itemsP_of_ih (tbl : Tables) (m : Nat) (items : List Expr) (Bof : Expr → List String) (hne : items ≠ [])
+    (rest : Toks) (hB : ∀ x ∈ items, "COMMA" ∉ Bof x ∧ "R_PAREN" ∉ Bof x) (hd : depthL items ≤ m)
+    (hh : ∀ x ∈ items, ∃ t r, g tbl x = t :: r ∧ t.ty ≠ "R_PAREN")
+    (ih : ∀ x ∈ items, ∀ n, depth x ≤ n → ∀ rest, headOk (Bof x) rest →
+      parseLv (subOf tbl (parseF tbl n).1 (parseF tbl n).2 .outer) tbl.outer (g tbl x ++ rest) = .ok (x, rest)) :
+    itemsP (parseF tbl (m + 1)).1 (gList tbl items ++ ⟨"R_PAREN", ")"⟩ :: rest).length
+      (gList tbl items ++ ⟨"R_PAREN", ")"⟩ :: rest) = .ok (items, rest) := by
+  apply itemsP_gList tbl _ items hne rest
+  · intro x hx t r htr
+    have hok : headOk (Bof x) (t :: r) := by
+      simp only [headOk]
+      rcases htr with h | h <;> rw [h]
+      · exact (hB x hx).1
+      · exact (hB x hx).2
+    have := ih x hx m (Nat.le_trans (depth_le_depthL hx) hd) (t :: r) hok
+    rw [parseF_succ]
+    simpa [topP, subOf] using this
+  · have := gList_length tbl items (fun x hx => by
+      obtain ⟨t, r, hg, _⟩ := hh x hx
+      rw [hg]; simp)
+    simp only [List.length_append, List.length_cons]
+    omega
 
 /-- main lemma: every clause of `Fits`, with `n` re-entries available and `depth e ≤ n` -/
 theorem fits_concl (tbl : Tables) {pos : Pos} {B : List String} {e : Expr} (h : Fits tbl pos B e) :
@@ -325,12 +567,156 @@ theorem fits_concl (tbl : Tables) {pos : Pos} {B : List String} {e : Expr} (h : 
     intro n hn rest hr
     have ih' := ih n hn rest hr
     simpa [Concl, parseLv, subOf, eqP] using ih'
-  | @rangeLift B e _ ih =>
+  | func0 name =>
+    intro n _ rest hr
+    simp [Concl, g_func, gList_nil, unaryP, atomP, headIs]
+  | func name args Bof hne hfit hB ih =>
     intro n hn rest hr
-    have ih' := ih n hn rest (headOk_append_right hr)
+    simp only [depth] at hn
+    obtain ⟨m, rfl⟩ : ∃ m, n = m + 1 := ⟨n - 1, by omega⟩
+    have hh : ∀ x ∈ args, ∃ t r, g tbl x = t :: r ∧ t.ty ≠ "R_PAREN" := fun x hx => g_head tbl (hfit x hx)
+    have hitems := itemsP_of_ih tbl m args Bof hne rest hB (by omega) hh
+      (fun x hx n hn rest hr => by simpa [Concl] using ih x hx n hn rest hr)
+    obtain ⟨t, r, hgl, ht⟩ := gList_head tbl args hne hh
+    simp only [Concl, g_func, List.cons_append, List.append_assoc, List.nil_append]
+    rw [hgl] at hitems ⊢
+    simp only [List.cons_append] at hitems ⊢
+    simp only [unaryP, atomP, headIs, ht, decide_false]
+    simp only [show ("VAR" = "DASH") = False by decide, show ("VAR" = "PLUS") = False by decide,
+      show ("VAR" = "TILDE") = False by decide, show ("VAR" = "NOT") = False by decide,
+      show ("VAR" = "NUMBER") = False by decide, show ("VAR" = "STRING") = False by decide,
+      show ("VAR" = "NULL") = False by decide, show ("VAR" = "TRUE") = False by decide,
+      show ("VAR" = "FALSE") = False by decide, show ("VAR" = "L_PAREN") = False by decide, if_false, if_true,
+      Bool.false_eq_true]
+    rw [hitems]
+  | @rOperand B e _ ih =>
+    intro n hn rest hr
+    have ih' := ih n hn rest hr
     simp only [Concl, subOf] at ih' ⊢
+    refine ⟨rest.length + 1, Nat.le_refl _, ?_⟩
     simp only [rangeP, bitP]
     rw [ih']
+  | @rIsNull Bl l neg _ his hnn hgi ih =>
+    intro n hn rest _
+    simp only [depth] at hn
+    have hl := ih n hn (toks (isOp neg) ++ ⟨"NULL", "NULL"⟩ :: rest)
+      (by cases neg <;> simpa [toks_isOp, headOk] using his)
+    simp only [Concl] at hl ⊢
+    obtain ⟨k, hk, hl⟩ := hl
+    have hg : g tbl (.isNull neg l) ++ rest = g tbl l ++ (toks (isOp neg) ++ ⟨"NULL", "NULL"⟩ :: rest) := by
+      rw [g_isNull, hgi]; simp
+    rw [hg, hl]
+    cases neg with
+    | false =>
+      simp only [toks_isOp, Bool.false_eq_true, if_false, List.cons_append, List.nil_append, List.length_cons] at hk ⊢
+      obtain ⟨k', rfl⟩ : ∃ k', k = k' + 1 := ⟨k - 1, by omega⟩
+      refine ⟨k', by omega, ?_⟩
+      rw [rangeLoop_plain _ _ _ _ _ _ _ (by decide)]
+      simp [rangeStep, isP]
+    | true =>
+      have hnn' := hnn rfl
+      simp only [toks_isOp, if_true, List.cons_append, List.nil_append, List.length_cons] at hk ⊢
+      obtain ⟨k', rfl⟩ : ∃ k', k = k' + 1 := ⟨k - 1, by omega⟩
+      refine ⟨k', by omega, ?_⟩
+      rw [rangeLoop_plain _ _ _ _ _ _ _ (by decide)]
+      simp [rangeStep, isP, hnn']
+  | @rIn Bl l items Bof _ hin hne hfit hB ihl ih =>
+    intro n hn rest _
+    simp only [depth] at hn
+    obtain ⟨m, rfl⟩ : ∃ m, n = m + 1 := ⟨n - 1, by omega⟩
+    have hh : ∀ x ∈ items, ∃ t r, g tbl x = t :: r ∧ t.ty ≠ "R_PAREN" := fun x hx => g_head tbl (hfit x hx)
+    have hitems := itemsP_of_ih tbl m items Bof hne rest hB (by omega) hh
+      (fun x hx n hn rest hr => by simpa [Concl] using ih x hx n hn rest hr)
+    have hl := ihl (m + 1) (by omega)
+      (⟨"IN", "IN"⟩ :: ⟨"L_PAREN", "("⟩ :: (gList tbl items ++ ⟨"R_PAREN", ")"⟩ :: rest)) (by simpa [headOk] using hin)
+    simp only [Concl] at hl ⊢
+    obtain ⟨k, hk, hl⟩ := hl
+    have hg : g tbl (.inList l items) ++ rest
+        = g tbl l ++ ⟨"IN", "IN"⟩ :: ⟨"L_PAREN", "("⟩ :: (gList tbl items ++ ⟨"R_PAREN", ")"⟩ :: rest) := by
+      rw [g_inList]; simp
+    rw [hg, hl]
+    simp only [List.length_cons, List.length_append] at hk
+    obtain ⟨k', rfl⟩ : ∃ k', k = k' + 1 := ⟨k - 1, by omega⟩
+    refine ⟨k', by omega, ?_⟩
+    rw [rangeLoop_plain _ _ _ _ _ _ _ (by decide)]
+    simp only [rangeStep, inP, if_true]
+    rw [hitems]
+  | @rBetween Bl Blo Bhi l lo hi _ hbt hflo hand hsym _ ihl ihlo ihhi =>
+    intro n hn rest hr
+    simp only [depth] at hn
+    have hl := ihl n (by omega) (⟨"BETWEEN", "BETWEEN"⟩ :: (g tbl lo ++ ⟨"AND", "AND"⟩ :: (g tbl hi ++ rest)))
+      (by simpa [headOk] using hbt)
+    have hlo := ihlo n (by omega) (⟨"AND", "AND"⟩ :: (g tbl hi ++ rest)) (by simpa [headOk] using hand)
+    have hhi := ihhi n (by omega) rest hr
+    simp only [Concl, subOf] at hl hlo hhi ⊢
+    obtain ⟨k, hk, hl⟩ := hl
+    have hg : g tbl (.between l lo hi) ++ rest
+        = g tbl l ++ ⟨"BETWEEN", "BETWEEN"⟩ :: (g tbl lo ++ ⟨"AND", "AND"⟩ :: (g tbl hi ++ rest)) := by
+      rw [g_between]; simp
+    rw [hg, hl]
+    simp only [List.length_cons, List.length_append] at hk
+    obtain ⟨k', rfl⟩ : ∃ k', k = k' + 1 := ⟨k - 1, by omega⟩
+    refine ⟨k', by omega, ?_⟩
+    rw [rangeLoop_plain _ _ _ _ _ _ _ (by decide)]
+    have hne : g tbl lo ≠ [] := by
+      obtain ⟨t, r, hgl, _⟩ := g_head tbl hflo
+      rw [hgl]; simp
+    have hsym' : textUpperIs (g tbl lo ++ ⟨"AND", "AND"⟩ :: (g tbl hi ++ rest)) ["SYMMETRIC", "ASYMMETRIC"] = false := by
+      rw [textUpperIs_append _ _ _ hne]; exact hsym
+    simp only [rangeStep, betweenP, hsym', Bool.false_eq_true, if_false, bitP] at hlo hhi ⊢
+    simp only [show ("BETWEEN" = "IN") = False by decide, if_false, if_true]
+    rw [hlo]
+    simp only [headIs, decide_true, if_true, List.drop_succ_cons, List.drop_zero]
+    rw [hhi]
+  | @rLike Bl Bp l p neg _ hlk hnt _ hgl hgp ihl ihp =>
+    intro n hn rest hr
+    simp only [depth] at hn
+    have hr2 : headOk ("ESCAPE" :: Bp) rest := headOk_append_right hr
+    have hp := ihp n (by omega) rest (by
+      cases rest with
+      | nil => trivial
+      | cons t r => simp only [headOk, List.mem_cons, not_or] at hr2 ⊢; exact hr2.2)
+    have hesc : headIs rest "ESCAPE" = false := by
+      cases rest with
+      | nil => rfl
+      | cons t r => simp only [headOk, List.mem_cons, not_or] at hr2; simp [headIs, hr2.1]
+    have hl := ihl n (by omega) (toks (likeOp neg) ++ (g tbl p ++ rest))
+      (by cases neg <;> simp [toks_likeOp, headOk, hlk, hnt])
+    simp only [Concl, subOf] at hl hp ⊢
+    obtain ⟨k, hk, hl⟩ := hl
+    have hg : g tbl (.like neg l p) ++ rest = g tbl l ++ (toks (likeOp neg) ++ (g tbl p ++ rest)) := by
+      rw [g_like, hgl, hgp]; simp
+    rw [hg, hl]
+    cases neg with
+    | false =>
+      simp only [toks_likeOp, Bool.false_eq_true, if_false, List.cons_append, List.nil_append, List.length_cons,
+        List.length_append] at hk ⊢
+      obtain ⟨k', rfl⟩ : ∃ k', k = k' + 1 := ⟨k - 1, by omega⟩
+      refine ⟨k', by omega, ?_⟩
+      rw [rangeLoop_plain _ _ _ _ _ _ _ (by decide)]
+      simp only [rangeStep, likeP, bitP] at hp ⊢
+      simp only [show ("LIKE" = "IN") = False by decide, show ("LIKE" = "BETWEEN") = False by decide, if_false, if_true]
+      rw [hp]
+      simp [hesc]
+    | true =>
+      have hr1 : headOk ("NOT" :: tbl.rangeToks) rest := by
+        have := headOk_append_left hr
+        simpa using this
+      simp only [toks_likeOp, if_true, List.cons_append, List.nil_append, List.length_cons, List.length_append] at hk ⊢
+      obtain ⟨k', rfl⟩ : ∃ k', k = k' + 1 := ⟨k - 1, by omega⟩
+      refine ⟨k', by omega, ?_⟩
+      rw [rangeLoop_not]
+      simp only [rangeStep, likeP, bitP] at hp ⊢
+      simp only [show ("LIKE" = "IN") = False by decide, show ("LIKE" = "BETWEEN") = False by decide, if_false, if_true]
+      rw [hp]
+      simp only [hesc, Bool.false_eq_true, if_false, negateRange]
+      rw [wrapIfRangeFollows_id _ _ _ hr1]
+  | @rangeLift B e _ ih =>
+    intro n hn rest hr
+    obtain ⟨k, hk, h⟩ := ih n hn rest (headOk_append_right hr)
+    simp only [Concl]
+    rw [h]
+    obtain ⟨k', rfl⟩ : ∃ k', k = k' + 1 := ⟨k - 1, by omega⟩
     exact rangeLoop_stop tbl _ _ _ e rest (headOk_append_left hr)
   | @ladLift w lv post B e _ ih =>
     intro n hn rest hr
@@ -361,6 +747,20 @@ theorem fits_concl (tbl : Tables) {pos : Pos} {B : List String} {e : Expr} (h : 
       simp only [loopLv, hop, hlk]
       rw [hr']
 
+theorem depthL_le_gList (tbl : Tables) (items : List Expr) (h : ∀ x ∈ items, depth x ≤ (g tbl x).length) :
+    depthL items ≤ (gList tbl items).length := by
+  induction items with
+  | nil => simp [depthL]
+  | cons e rest ih =>
+    have he := h e (List.mem_cons_self ..)
+    have hr := ih (fun x hx => h x (List.mem_cons_of_mem _ hx))
+    cases rest with
+    | nil => rw [gList_one]; simp only [depthL]; omega
+    | cons f fs =>
+      rw [gList_cons2]
+      simp only [depthL, List.length_append, List.length_cons] at hr ⊢
+      omega
+
 /-- the printed form has at least `depth e` tokens -/
 theorem depth_le_length (tbl : Tables) {pos : Pos} {B : List String} {e : Expr} (h : Fits tbl pos B e) :
     depth e ≤ (g tbl e).length := by
@@ -382,6 +782,20 @@ theorem depth_le_length (tbl : Tables) {pos : Pos} {B : List String} {e : Expr} 
   | spineOperand _ ih => exact ih
   | spineBin cls tok txt _ _ _ _ _ ihl ihr =>
     simp only [depth, g_bin, List.length_append, List.length_cons]; omega
+  | func0 name => simp [depth, depthL, g_func]
+  | func name args Bof _ _ _ ih =>
+    have := depthL_le_gList tbl args ih
+    simp only [depth, g_func, List.length_cons, List.length_append, List.length_nil]; omega
+  | rOperand _ ih => exact ih
+  | rIsNull n _ _ _ hgi ih =>
+    simp only [depth, g_isNull, hgi, List.length_append]; omega
+  | rIn items Bof _ _ _ _ _ ihl ih =>
+    have := depthL_le_gList tbl items ih
+    simp only [depth, g_inList, List.length_cons, List.length_append, List.length_nil]; omega
+  | rBetween _ _ _ _ _ _ ihl ihlo ihhi =>
+    simp only [depth, g_between, List.length_cons, List.length_append]; omega
+  | rLike n _ _ _ _ hgl hgp ihl ihp =>
+    simp only [depth, g_like, hgl, hgp, List.length_append]; omega
 
 end SqlglotModel.ParseGen
 
@@ -403,7 +817,17 @@ theorem liftLad (tbl : Tables) (w : Which) (lvs : List Level) {B : List String} 
 /-- an operand of the arithmetic ladder, lifted to the top of the expression grammar -/
 theorem liftTop (tbl : Tables) {B : List String} {e : Expr} (h : Fits tbl (.lad .lower tbl.lower) B e) :
     Fits tbl (.lad .outer tbl.outer) (ladB tbl.outer (ladB tbl.mid (rangeBlocked tbl ++ B))) e :=
+  liftLad tbl .outer tbl.outer (.baseOuter (liftLad tbl .mid tbl.mid (.baseMid (.rangeLift (.rOperand h)))))
+
+/-- a range-level chain lifted to the top of the expression grammar -/
+theorem liftTopR (tbl : Tables) {B : List String} {e : Expr} (h : Fits tbl .rspine B e) :
+    Fits tbl (.lad .outer tbl.outer) (ladB tbl.outer (ladB tbl.mid (rangeBlocked tbl ++ B))) e :=
   liftLad tbl .outer tbl.outer (.baseOuter (liftLad tbl .mid tbl.mid (.baseMid (.rangeLift h))))
+
+/-- an atom / unary expression as an operand of the arithmetic ladder -/
+theorem atomLower (tbl : Tables) {B : List String} {e : Expr} (h : Fits tbl .unary B e) :
+    Fits tbl (.lad .lower tbl.lower) (ladB tbl.lower B) e :=
+  liftLad tbl .lower tbl.lower (.baseLower h)
 
 /-- S-expression of a complete parse (`none` unless every token was consumed) -/
 def parseSexp (tbl : Tables) (ts : Toks) : Option String :=
